@@ -62,6 +62,7 @@ const char *lab_env_fini(void);
 void pooltrack_install(void);
 void pooltrack_reset(void);
 long pooltrack_live(void);          /* objects currently taken out of any pool */
+void pooltrack_dump_live(void);     /* LAB_TRACE_POOL=1: who obtained the objects still held */
 extern int pooltrack_violations;     /* double park / get of a live object */
 extern char pooltrack_msg[160];
 
